@@ -111,3 +111,30 @@ def bytes_of(d):
             return None
         out.append(x[1])
     return bytes(out)
+
+
+def follow_match(ast, tyname, ent, it, good, crate=None, depth=2):
+    """the match table of a method - or, when the method only delegates (`self.helper(..)`, `Self::helper(..)`), of the
+    helper method of the same type it calls.  good(match) -> bool selects a table-like match.  Returns (entity, item, match)."""
+    from astq import find_nodes
+    for m in find_nodes(it["body"], lambda n: n.get("k") == "Match"):
+        if good(m):
+            return ent, it, m
+    if depth <= 0:
+        return ent, it, None
+    called = set()
+    for n in find_nodes(it["body"], lambda n: n.get("k") in ("Call", "MethodCall")):
+        if n["k"] == "MethodCall":
+            called.add(n["method"])
+        else:
+            pth = (n.get("func") or {}).get("path") or ""
+            if pth:
+                called.add(pth.split("::")[-1])
+    for nm in sorted(called):
+        for (e2, it2) in ast.method(tyname, nm, crate=crate):
+            if it2 is it:
+                continue
+            r = follow_match(ast, tyname, e2, it2, good, crate, depth - 1)
+            if r[2] is not None:
+                return r
+    return ent, it, None
